@@ -47,6 +47,8 @@ type Case struct {
 	Indexed bool       `json:"indexed,omitempty"`
 	Kind    string     `json:"kind,omitempty"` // scenario name (for the histogram)
 	Heap    bool       `json:"heap,omitempty"` // live-heap run: no logging wrapper, lazily generated input
+	RunAt   int        `json:"run_at,omitempty"`  // records RunAt .. RunAt+RunLen-1 are Recs[1] (rejected by the filter):
+	RunLen  int        `json:"run_len,omitempty"` // one long unbroken run of rejections inside ONE Read of the caller
 }
 
 // lazyInput produces the input of a case piece by piece, so that a long input is never held in
@@ -84,6 +86,9 @@ func (l *lazyInput) Read(p []byte) (int, error) {
 }
 
 func (c *Case) recIndex(i int) int {
+	if c.RunLen > 0 && i >= c.RunAt && i < c.RunAt+c.RunLen {
+		return 1
+	}
 	if i < len(c.Prefix) {
 		return c.Prefix[i]
 	}
@@ -537,6 +542,50 @@ func xmlShapeCase(shape string, filter bool, count int, r *vh.Rng) *Case {
 	return c
 }
 
+// dynCase: the transform computes an xpath (xpath_dynamic) and custom_func / javascript arguments
+// from data of the record, different for every record.
+func dynCase(format string, count int, r *vh.Rng) *Case {
+	c := &Case{Format: format, Count: count, Indexed: true, Kind: "per-record distinct xpath_dynamic and custom_func arguments"}
+	var xp string
+	if format == "xml" {
+		c.Open, c.Close = "<r>", "</r>"
+		xp = "/r/n"
+		c.Recs = []string{`<n><key>k#I#</key><attrs><k#I#>v#I#</k#I#></attrs><a>1</a></n>`}
+	} else {
+		c.Open, c.Close, c.Joiner = "[", "]", ","
+		xp = "/*"
+		c.Recs = []string{`{"key":"k#I#","attrs":{"k#I#":"v#I#"},"a":"1"}`}
+	}
+	c.Pass = []bool{true}
+	c.Schema = `{` + hdr(format) + `, "transform_declarations": { "FINAL_OUTPUT": { "xpath": "` + xp + `", "object": {
+  "a": { "xpath": "a" },
+  "d": { "xpath_dynamic": { "custom_func": { "name": "concat", "args": [ { "const": "attrs/" }, { "xpath": "key" } ] } } },
+  "u": { "custom_func": { "name": "upper", "args": [ { "xpath": "key" } ] } },
+  "j": { "custom_func": { "name": "javascript", "args": [ { "const": "k + '!'" }, { "const": "k" }, { "xpath": "key" } ] } } } } } }`
+	return c
+}
+
+// posCase: a positional trailing filter in the stream xpath.  Under the streaming reader earlier
+// siblings are gone, so position() is 1 and last() is 1 for every candidate: the filters used
+// here accept every record on HEAD; only the node count matters.
+func posCase(format, pred string, count int, r *vh.Rng) *Case {
+	a, _, b, _, cc := vals(r)
+	c := &Case{Format: format, Count: count, Kind: "positional stream filter " + pred}
+	var xp string
+	if format == "xml" {
+		c.Open, c.Close = "<r>", "</r>"
+		xp = "/r/n[" + pred + "]"
+		c.Recs = []string{"<n><a>" + a + "</a><b>" + b + "</b><c>" + cc + "</c></n>"}
+	} else {
+		c.Open, c.Close, c.Joiner = `{"records":[`, `]}`, ","
+		xp = "/records/*[" + pred + "]"
+		c.Recs = []string{fmt.Sprintf(`{"a":%q,"b":%q,"c":%q}`, a, b, cc)}
+	}
+	c.Pass = []bool{true}
+	c.Schema = `{` + hdr(format) + `, ` + finalOutput(`"xpath": `+jsonQuote(xp)+`,`) + `}`
+	return c
+}
+
 // jsonCase: records are array elements or the values of an object keyed by id, at the top level
 // or nested below objects; records are objects or scalars.
 func jsonCase(shape string, scalar, filter bool, tfail string, count int, r *vh.Rng) *Case {
@@ -777,6 +826,28 @@ func heapRun(o *vh.Opts, c *Case, sum *vh.Summary, slack uint64, verbose bool) b
 	fin := ""
 	reads := 0
 	t0 := time.Now()
+	// stack memory is watched from a second goroutine WHILE Reads are in progress: frames piled up
+	// inside one Read (a recursion per skipped record) are gone again by the time it returns
+	var ms0 runtime.MemStats
+	runtime.GC()
+	runtime.ReadMemStats(&ms0)
+	stackMax := ms0.StackInuse
+	stop, stopped := make(chan struct{}), make(chan struct{})
+	go func() {
+		defer close(stopped)
+		var ms runtime.MemStats
+		for {
+			select {
+			case <-stop:
+				return
+			case <-time.After(3 * time.Millisecond):
+				runtime.ReadMemStats(&ms)
+				if ms.StackInuse > stackMax {
+					stackMax = ms.StackInuse
+				}
+			}
+		}
+	}()
 	func() {
 		defer func() {
 			if p := recover(); p != nil {
@@ -825,9 +896,27 @@ func heapRun(o *vh.Opts, c *Case, sum *vh.Summary, slack uint64, verbose bool) b
 		}
 		runtime.KeepAlive(t)
 	}()
+	close(stop)
+	<-stopped
 	if fin != "EOF" {
 		sum.Fail("the transform did not reach EOF: "+fin, c, nil)
 		return false
+	}
+	if m, ok := sum.Extra["stack_growth_bytes_max_during_run"].(map[string]int64); ok {
+		m[c.Format+" "+c.Kind] = int64(stackMax) - int64(ms0.StackInuse)
+	} else {
+		sum.Extra["stack_growth_bytes_max_during_run"] = map[string]int64{c.Format + " " + c.Kind: int64(stackMax) - int64(ms0.StackInuse)}
+	}
+	if stackMax > ms0.StackInuse+stackSlack {
+		sum.Fail("goroutine stack memory grows while records are read (frames are piled up per record skipped inside one Read)",
+			c, map[string]interface{}{"stack_inuse_before": ms0.StackInuse, "stack_inuse_max_during_run": stackMax, "records_read": reads})
+		if verbose {
+			fmt.Printf("ORACLE FAILS: StackInuse went from %d to %d during the run\n", ms0.StackInuse, stackMax)
+		}
+		return true
+	}
+	if verbose {
+		fmt.Printf("stack: StackInuse %d before, max %d during the run\n", ms0.StackInuse, stackMax)
 	}
 	if len(samples) < 6 {
 		return false
@@ -880,11 +969,14 @@ type corpusFile struct {
 // long is quadratic (something retained is searched again and again)
 const heapDeadline = 90 * time.Second
 
+// stack memory in use may grow by this much during a run (goroutines of the runtime, the monitor)
+const stackSlack = 4 << 20
+
 func heapSlack(o *vh.Opts) uint64 {
 	if o.Tier == "thorough" {
 		return 2 << 20
 	}
-	return 512 << 10
+	return 256 << 10
 }
 
 func main() {
@@ -987,6 +1079,12 @@ func main() {
 		one(xmlShapeCase(sh, false, size(false), r))
 		one(xmlShapeCase(sh, true, size(false), r))
 	}
+	for _, f := range []string{"xml", "json"} {
+		for _, p := range []string{"position() > 0", "position() >= 1", "last() >= 1"} {
+			one(posCase(f, p, size(false), r))
+		}
+		one(dynCase(f, size(false), r))
+	}
 	// JSON stream reader
 	one(jsonCase("root-array", false, false, "none", big, r))
 	one(jsonCase("object-values", false, true, "none", size(true), r))
@@ -1022,16 +1120,36 @@ func main() {
 			heap(flatCase(fx, !filter, false, "none", long, r))
 		}
 	}
-	heap(xmlCase("none", false, "none", long, r))
-	heap(xmlCase("child", false, "none", long, r))
-	heap(jsonCase("root-array", false, false, "none", long, r))
-	heap(jsonCase("object-values", false, true, "none", long, r))
+	slong := long * 5 / 8 // the stream readers take longer per record
+	heap(xmlCase("none", false, "none", slong, r))
+	heap(xmlCase("child", false, "none", slong, r))
+	heap(jsonCase("root-array", false, false, "none", slong, r))
+	heap(jsonCase("object-values", false, true, "none", slong, r))
+	// one long unbroken run of rejected records (inside one Read) for every format with a filter
+	longRun := func(c *Case) {
+		c.RunAt, c.RunLen = c.Count/8, 100000
+		c.Count += c.RunLen
+		c.Kind += " +run of 10^5 rejections"
+		heap(c)
+	}
+	for _, fx := range flatFixtures() {
+		if fx.variant == "" {
+			longRun(flatCase(fx, true, false, "none", long/2, r))
+		}
+	}
+	longRun(xmlCase("child", false, "none", long/2, r))
+	longRun(jsonCase("root-array", false, true, "none", long/2, r))
+	// values computed per record: xpath_dynamic strings, custom_func / javascript arguments
+	heap(dynCase("xml", slong, r))
+	heap(dynCase("json", slong, r))
 	// per-record reader state: declarations on the record element, names that are data
-	heap(xmlShapeCase("ns-on-record", false, long, r))
-	heap(xmlShapeCase("ns-on-record", true, long, r))
-	heap(xmlShapeCase("data-names", false, long, r))
-	heap(jsonCase("object-values", false, false, "none", long, r))
-	heap(jsonCase("nested-object-values", false, true, "none", long, r))
+	heap(xmlShapeCase("ns-on-record", int(o.Seed)%2 == 0, slong, r))
+	heap(xmlShapeCase("data-names", false, slong, r))
+	heap(jsonCase("object-values", false, false, "none", slong, r))
+	if o.Tier == "thorough" {
+		heap(xmlShapeCase("ns-on-record", int(o.Seed)%2 != 0, slong, r))
+		heap(jsonCase("nested-object-values", false, true, "none", slong, r))
+	}
 	cw.Flush()
 	sum.CaseFiles = cw.Files
 	sum.Write(o)
